@@ -135,6 +135,14 @@ def stmt_ei_only(z, dkw, rng, gas, cx=True):
                 out.append({"key": {"clause": "ei_only_growth"}, "what": f"ions grow by {lhs!r} per second but ionised neutrals are {rhs!r}", "input": inp})
         if np.abs(r.N[0] - r.N[0, 0]).max() > 16 * np.finfo(float).eps * abs(r.N[0, 0]):
             out.append({"key": {"clause": "neutral_constant"}, "what": "neutral gas density changes during an advanced run", "input": inp})
+        # "the total number of ions grows exactly by the number of ionised neutrals": that number counted independently of the kernel's own
+        # rate — sigma_EI(neutral) x line density x j/e x the fraction of the (flat) neutral cloud inside the beam, (r_e / r_dt)^2
+        from ebisim.physconst import Q_E
+        want = ebisim.eixs_vec(ebisim.Element.get(z), dev.e_kin)[0] * r.N[0, 0] * dev.j / Q_E * 1e4 * (dev.r_e / dev.r_dt) ** 2
+        dy0, _ = advcorr.impl_rhs(m, np.ascontiguousarray(r.res.y[:, 0]))
+        got = dy0[1:m.nq].sum()
+        if abs(got - want) > 1e-6 * abs(want):
+            out.append({"key": {"clause": "ei_only_growth"}, "what": f"at t = 0 the ions of the gas target grow by {got!r} per second, the neutrals ionised inside the beam are {want!r} per second", "input": inp})
     return out
 
 
@@ -143,7 +151,9 @@ def search(ctx):
     V = []
     n = 6 if ctx.thorough else (4 if ctx.failures else 2)
     for k in range(n):
-        dkw = gens.device_kwargs(rng, n_grid=60)
+        # (end-to-end runs use the default 400-node mesh: on a coarse mesh the innermost potential step exceeds what the temperature floor
+        #  of 1 meV can resolve, q dphi_1/500 > 1e-3 eV, and a barely populated state reaching the floor makes the kernel return NaN)
+        dkw = gens.device_kwargs(rng, n_grid=400)
         if k % 2 == 0 and "j" not in dkw:   # explicit current density (the basic simulation is driven by j alone)
             dkw["j"] = float(dkw["current"] / (np.pi * dkw["r_e"] ** 2) * 1e-4 * rng.choice([0.3, 2.5]))
         z = int(rng.choice([2, 6, 10, 18])); q = int(rng.integers(1, min(z, 4) + 1))
@@ -160,6 +170,7 @@ def search(ctx):
                 if z_ei * abs(d_.rad_phi_uncomp[1] - d_.rad_phi_uncomp[0]) / 500 <= 0.5 * 0.02585:
                     dkw_ei = cand; break
         if dkw_ei is not None:
+            if gas: dkw_ei = dict(dkw_ei, r_dt_bar=float(dkw_ei["r_dt"] * rng.choice([0.6, 1.6])))     # a barrier tube of another radius than the trap's
             V += stmt_ei_only(z_ei, dkw_ei, rng, gas=gas, cx=bool((k // 2 + 1) % 2 if n > 2 else (k + 1) % 2)); ctx.count("simulations")
         else:
             ctx.count("ei_only_gas_unresolvable_skipped")
@@ -172,7 +183,7 @@ def search(ctx):
     el = ebisim.Element.get(z)
     i = int(np.argmax(el.dr_strength))   # the strongest resonance: recombination into cs-1 competes visibly with ionisation
     cs = int(el.dr_cs[i]); er = float(el.dr_e_res[i])
-    dkw = gens.device_kwargs(rng, n_grid=60)
+    dkw = gens.device_kwargs(rng, n_grid=400)
     dkw["e_kin"] = er
     while dkw["current"] / er ** 1.5 > 1.5e-6: dkw["current"] *= 0.5
     dkw.pop("fwhm", None)
